@@ -164,10 +164,34 @@ def layItem : PItem → List Char
 
 /-! ### The printer writes the printed style of the quoted tree (unconditionally) -/
 
+/-- A non-negative integer is quoted as its digits … -/
+theorem quoteAtom_ofNat (n : Nat) : quoteAtom (.int (n : Int)) = .int (natDigits n) := by
+  have : ¬ ((n : Int) < 0) := by omega
+  simp only [quoteAtom, this, if_false, printInt_ofNat]
+
+/-- … a negative one as the signed literal with the digits of its absolute value. -/
+theorem quoteAtom_negSucc (m : Nat) : quoteAtom (.int (Int.negSucc m)) = .negInt (natDigits (m + 1)) := by
+  have : (Int.negSucc m) < 0 := Int.negSucc_lt_zero m
+  simp only [quoteAtom, this, if_true]
+  rfl
+
 theorem printAtom_eq (a : Atom) : printAtom a = layAtom (quoteAtom a) := by
   cases a with
   | bool b => cases b <;> rfl
+  | int i =>
+    cases i with
+    | ofNat n => rw [show Int.ofNat n = (n : Int) from rfl, quoteAtom_ofNat]; simp [printAtom, layAtom, atomToks, spellTok, printInt_ofNat]
+    | negSucc m => rw [quoteAtom_negSucc]; simp [printAtom, layAtom, atomToks, spellTok, printInt_negSucc]
   | _ => simp [printAtom, layAtom, quoteAtom, atomToks, spellTok]
+
+/-- A quoted literal is never a set: as a term it is laid out as an atom. -/
+theorem layTerm_quoteAtom (a : Atom) : layTerm (quoteAtom a) = layAtom (quoteAtom a) := by
+  cases a with
+  | int i =>
+    cases i with
+    | ofNat n => rw [show Int.ofNat n = (n : Int) from rfl, quoteAtom_ofNat]; rfl
+    | negSucc m => rw [quoteAtom_negSucc]; rfl
+  | _ => rfl
 
 theorem map_insertSortedA (x : Atom) (l : List Atom) :
     (insertSortedA x l).map printAtom = insertSortedC (printAtom x) (l.map printAtom) := by
@@ -193,8 +217,7 @@ theorem printTerm_eq (t : Term Val) : printTerm t = layTerm (quoteTerm t) := by
   | const v =>
     cases v with
     | atom a =>
-      rw [printTerm, quoteTerm, printAtom_eq]
-      cases a <;> rfl
+      rw [printTerm, quoteTerm, printAtom_eq, layTerm_quoteAtom]
     | set l =>
       simp only [printTerm, quoteTerm, layTerm, List.map_map]
       rw [← map_sortA]
@@ -538,6 +561,12 @@ theorem seg_layAtom (t : PTerm) (hw : C14.AtomTermWF t) (hl : atomLexOK t = true
   | param n => exact ⟨by simpa [layAtom, atomToks] using seg_single _ (hwf _ (by simp [atomToks])), LastP.single (c6 n)⟩
   | var n => exact ⟨by simpa [layAtom, atomToks] using seg_single _ (hwf _ (by simp [atomToks])), LastP.single (c1 n)⟩
   | int ds => exact ⟨by simpa [layAtom, atomToks] using seg_single _ (hwf _ (by simp [atomToks])), LastP.single (c3 ds)⟩
+  | negInt ds =>
+    -- `-` directly followed by the digits: no blank is needed (nor written) after the sign
+    have hd : TokWF (.int ds) := hwf _ (by simp [atomToks])
+    have s := (seg_single (.op "-") (by decide)).snoc (.int ds) hd (fun a ha => by
+      simp at ha; subst ha; exact needSep_minus_int ds hd)
+    exact ⟨by simpa [layAtom, atomToks, spellTok] using s, LastP.cons _ (LastP.single (c3 ds))⟩
   | str s => exact ⟨by simpa [layAtom, atomToks] using seg_single _ (hwf _ (by simp [atomToks])), LastP.single (c5 s)⟩
   | date s => exact ⟨by simpa [layAtom, atomToks] using seg_single _ (hwf _ (by simp [atomToks])), LastP.single (c7 s)⟩
   | bytes ds => exact ⟨by simpa [layAtom, atomToks] using seg_single _ (hwf _ (by simp [atomToks])), LastP.single (c4 ds)⟩
@@ -568,6 +597,7 @@ theorem seg_layTerm (t : PTerm) (hw : C14.TermWF t) (hl : termLexOK t = true) :
   | param n => exact atomCase _ trivial hl rfl rfl
   | var n => exact atomCase _ trivial hl rfl rfl
   | int ds => exact atomCase _ trivial hl rfl rfl
+  | negInt ds => exact atomCase _ trivial hl rfl rfl
   | str s => exact atomCase _ trivial hl rfl rfl
   | date s => exact atomCase _ trivial hl rfl rfl
   | bytes ds => exact atomCase _ trivial hl rfl rfl
@@ -756,7 +786,7 @@ def utf8OK (b : Bytes) : Bool := strBytes (String.ofList (charsOfBytes b)) == b
 def maxDate : Nat := 253402300800
 
 def printableAtom : Atom → Bool
-  | .int i => decide (0 ≤ i) && decide (i < 2 ^ 63)
+  | .int i => decide (-(2 ^ 63) ≤ i) && decide (i < 2 ^ 63)     -- int64
   | .str s => utf8OK s && (charsOfBytes s).all (· != '"')
   | .date d => decide (d < maxDate)
   | .bytes _ => true
@@ -843,19 +873,23 @@ theorem sortA_ne_nil (l : List Atom) (h : l ≠ []) : sortA l ≠ [] := by
 
 theorem int_cases (i : Int) (h : 0 ≤ i) : ∃ n : Nat, i = (n : Int) := ⟨i.toNat, by omega⟩
 
-theorem atomLexOK_quoteAtom (a : Atom) (h : printableAtom a = true) : atomLexOK (quoteAtom a) = true := by
+theorem atomLexOK_quoteAtom (a : Atom) (_h : printableAtom a = true) : atomLexOK (quoteAtom a) = true := by
   cases a with
   | int i =>
-    simp only [printableAtom, Bool.and_eq_true, decide_eq_true_eq] at h
-    obtain ⟨n, rfl⟩ := int_cases i h.1
-    simp only [quoteAtom, atomLexOK, printInt_ofNat, natDigits_all, Bool.and_true, Bool.not_eq_true',
-      List.isEmpty_eq_false_iff]
-    exact natDigits_ne_nil n
+    cases i with
+    | ofNat n =>
+      rw [show Int.ofNat n = (n : Int) from rfl, quoteAtom_ofNat]
+      simp only [atomLexOK, natDigits_all, Bool.and_true, Bool.not_eq_true', List.isEmpty_eq_false_iff]
+      exact natDigits_ne_nil n
+    | negSucc m =>
+      rw [quoteAtom_negSucc]
+      simp only [atomLexOK, natDigits_all, Bool.and_true, Bool.not_eq_true', List.isEmpty_eq_false_iff]
+      exact natDigits_ne_nil (m + 1)
   | str s =>
-    simp only [printableAtom, Bool.and_eq_true] at h
-    exact h.2
+    simp only [printableAtom, Bool.and_eq_true] at _h
+    exact _h.2
   | date d =>
-    have h' : d < 253402300800 := of_decide_eq_true h
+    have h' : d < 253402300800 := of_decide_eq_true _h
     simp [quoteAtom, atomLexOK, (printDate_roundtrip d h').1]
   | bytes b =>
     simp only [quoteAtom, atomLexOK, printHex_all, printHex_length, Bool.true_and, beq_iff_eq]
@@ -863,7 +897,29 @@ theorem atomLexOK_quoteAtom (a : Atom) (h : printableAtom a = true) : atomLexOK 
   | bool b => rfl
 
 theorem atomWF_quoteAtom (a : Atom) : C14.AtomTermWF (quoteAtom a) := by
-  cases a <;> trivial
+  cases a with
+  | int i =>
+    cases i with
+    | ofNat n => rw [show Int.ofNat n = (n : Int) from rfl, quoteAtom_ofNat]; trivial
+    | negSucc m => rw [quoteAtom_negSucc]; trivial
+  | _ => trivial
+
+/-- A quoted literal is never a set: as a term it is checked as an atom. -/
+theorem termLexOK_quoteAtom (a : Atom) : termLexOK (quoteAtom a) = atomLexOK (quoteAtom a) := by
+  cases a with
+  | int i =>
+    cases i with
+    | ofNat n => rw [show Int.ofNat n = (n : Int) from rfl, quoteAtom_ofNat]; rfl
+    | negSucc m => rw [quoteAtom_negSucc]; rfl
+  | _ => rfl
+
+theorem termWF_quoteAtom (a : Atom) : C14.TermWF (quoteAtom a) := by
+  cases a with
+  | int i =>
+    cases i with
+    | ofNat n => rw [show Int.ofNat n = (n : Int) from rfl, quoteAtom_ofNat]; trivial
+    | negSucc m => rw [quoteAtom_negSucc]; trivial
+  | _ => trivial
 
 theorem termLexOK_quoteTerm (t : Term Val) (h : printableTerm t = true) : termLexOK (quoteTerm t) = true := by
   cases t with
@@ -875,7 +931,7 @@ theorem termLexOK_quoteTerm (t : Term Val) (h : printableTerm t = true) : termLe
     cases v with
     | atom a =>
       have := atomLexOK_quoteAtom a h
-      cases a <;> exact this
+      rw [quoteTerm, termLexOK_quoteAtom]; exact this
     | set l =>
       simp only [printableTerm, Bool.and_eq_true, List.all_eq_true] at h
       simp only [quoteTerm, termLexOK, List.all_eq_true, List.mem_map]
@@ -887,7 +943,7 @@ theorem termWF_quoteTerm (t : Term Val) (h : printableTerm t = true) : C14.TermW
   | var n => trivial
   | const v =>
     cases v with
-    | atom a => cases a <;> trivial
+    | atom a => exact termWF_quoteAtom a
     | set l =>
       simp only [printableTerm, Bool.and_eq_true, Bool.not_eq_true', List.isEmpty_eq_false_iff] at h
       refine ⟨?_, ?_⟩
@@ -1077,9 +1133,16 @@ theorem denoteAtom_quote (a : Atom) (h : printableAtom a = true) :
   cases a with
   | int i =>
     simp only [printableAtom, Bool.and_eq_true, decide_eq_true_eq] at h
-    obtain ⟨n, rfl⟩ := int_cases i h.1
-    have hn : n < 2 ^ 63 := by have := h.2; omega
-    simp only [quoteAtom, denoteAtomTerm, printInt_ofNat, natOfDigits_natDigits, hn, if_true]
+    cases i with
+    | ofNat n =>
+      have hn : n < 2 ^ 63 := by have := h.2; rw [show Int.ofNat n = (n : Int) from rfl] at this; omega
+      rw [show Int.ofNat n = (n : Int) from rfl, quoteAtom_ofNat]
+      simp only [denoteAtomTerm, natOfDigits_natDigits, hn, if_true]
+    | negSucc m =>
+      have hn : m + 1 ≤ 2 ^ 63 := by have := h.1; omega
+      rw [quoteAtom_negSucc]
+      simp only [denoteAtomTerm, natOfDigits_natDigits, hn, if_true]
+      rfl
   | str s =>
     simp only [printableAtom, Bool.and_eq_true] at h
     simp only [quoteAtom, denoteAtomTerm, utf8OK_spec s h.1]
@@ -1093,6 +1156,16 @@ theorem denoteAtom_quote (a : Atom) (h : printableAtom a = true) :
     simp only [quoteAtom, denoteAtomTerm, this, if_true, bytesOfHex_printHex]
   | bool b => rfl
 
+/-- A quoted literal is never a set: as a term it is denoted as an atom. -/
+theorem denoteTerm_quoteAtom (ps : Params) (a : Atom) :
+    denoteTerm ps (quoteAtom a) = denoteAtomTerm ps (quoteAtom a) := by
+  cases a with
+  | int i =>
+    cases i with
+    | ofNat n => rw [show Int.ofNat n = (n : Int) from rfl, quoteAtom_ofNat]; rfl
+    | negSucc m => rw [quoteAtom_negSucc]; rfl
+  | _ => rfl
+
 theorem denoteTerm_quote (t : Term Val) (h : printableTerm t = true) :
     denoteTerm [] (quoteTerm t) = some (normTerm t) := by
   cases t with
@@ -1103,7 +1176,7 @@ theorem denoteTerm_quote (t : Term Val) (h : printableTerm t = true) :
     cases v with
     | atom a =>
       have := denoteAtom_quote a h
-      cases a <;> exact this
+      rw [quoteTerm, denoteTerm_quoteAtom]; exact this
     | set l =>
       simp only [printableTerm, Bool.and_eq_true, List.all_eq_true] at h
       have h1 : ((sortA l).map quoteAtom).mapM (denoteAtomTerm []) =
